@@ -18,7 +18,9 @@ LEAVES = ["0", "1", "-1", "2147483647", "-2147483648", "4294967296", "9223372036
           "0.0", "1.5", "-0.25", "3.0", "10000000000.0", "0.00001", "123456.789", "-7.0",
           '""', '"a"', '"a\\"b"', '"back\\\\slash"', '"nl\\nx"', '"cr\\rx"', '"({"', '"([1:2])"', '"a,b"', '"x:y"', '"/"', '"#"',
           '"tab\\tx"', 'sprintf("%c%c", 195, 169)', '"ends\\\\"', "({ })", "([ ])",
-          '"q\\"x\\ny"', '"b\\\\s\\nz"', '"cr\\rthen\\nlf"', '"\\n\\"\\n"']
+          '"q\\"x\\ny"', '"b\\\\s\\nz"', '"cr\\rthen\\nlf"', '"\\n\\"\\n"',
+          # mappings that grow past the hash-table thresholds while they are restored (7-9 and more entries)
+          "mkm(8, 16)", "mkm(9, 1)", "mkm(20, 3)", "mks(8)", "mks(17)", "mkm(7, 128)"]
 KEYS = ["1", "-1", '"a"', '"a\\"b"', '"nl\\nx"', "1.5"]
 
 
@@ -33,14 +35,17 @@ def lpc_of(t):
 
 
 def vals_src(trees):
-    src = ["// generated values", "mixed deep(int n) { mixed v = ({ 1 }); while (n--) v = ({ v }); return v; }", "mixed v(int i) {", "  switch (i) {"]
+    src = ["// generated values", "mixed deep(int n) { mixed v = ({ 1 }); while (n--) v = ({ v }); return v; }",
+           "mapping mkm(int n, int st) { mapping m = ([ ]); int i; for (i = 0; i < n; i++) m[112 + i * st + st] = i; return m; }",
+           "mapping mks(int n) { mapping m = ([ ]); int i; for (i = 0; i < n; i++) m[\"key\" + i] = ({ i }); return m; }",
+           "mixed v(int i) {", "  switch (i) {"]
     for i, t in enumerate(trees):
         src.append("  case %d: return %s;" % (i, "deep(30)" if t == "DEEP" else lpc_of(t)))
     src += ["  }", "  return 0;", "}"]
     return "\n".join(src) + "\n"
 
 
-PRE = ["backend", "connect u1", "cycle", "line u1 name u1", "cycle", "line u1 do me mk:sv:/obj/sv", "cycle"]
+PRE = ["setcfg MaxEvaluationCost 100000000", "backend", "connect u1", "cycle", "line u1 name u1", "cycle", "line u1 do me mk:sv:/obj/sv", "cycle"]
 
 
 def run(tier, work):
